@@ -77,9 +77,25 @@ Theorem c04_safe_filter_refuted :
 Proof. exact safe_filter_refuted. Qed.
 Print Assumptions c04_safe_filter_refuted.
 
-(** Across renders the property is FALSE for [date] (known finding
-    date-lru-cache-returns-markup): the process-wide lru_cache answers a call
-    whose format is data with the Markup computed for an equal literal format. *)
+(** The [date] filter (current code, no cache): a data format is always escaped
+    on output, whatever the date library does ... *)
+Theorem c04_date_data_format_escaped : forall strftime dat fmt,
+  fst fmt = false -> ~ Tainted (tls_ae (vstr (date_filter strftime dat fmt))).
+Proof. exact date_data_format_escaped_now. Qed.
+Print Assumptions c04_date_data_format_escaped.
+
+(** ... and with a literal format the Markup result is untainted provided
+    strftime maps an untainted format to an untainted text (explicit premise). *)
+Theorem c04_date_preserves_safe_inv : forall strftime dat fmt,
+  (forall d f r, Clean f -> strftime d f = Some r -> Clean r) ->
+  m_ok fmt = true -> m_ok (date_filter strftime dat fmt) = true.
+Proof. exact date_preserves_safe_inv. Qed.
+Print Assumptions c04_date_preserves_safe_inv.
+
+(** HISTORICAL (the code before fix c40f103; DESIGN 10 row 32): with the
+    process-wide lru_cache around [date] the property was FALSE across renders:
+    a call whose format is data was answered with the Markup computed for an
+    equal literal format.  The harness re-runs this witness on every run. *)
 Theorem c04_date_cache_refuted :
   exists (strftime : str -> str -> str) dat f,
     let c1 := snd (date_call strftime [] dat (true, f)) in
@@ -91,9 +107,9 @@ Theorem c04_date_cache_refuted :
 Proof. exact date_cache_refuted. Qed.
 Print Assumptions c04_date_cache_refuted.
 
-(** Under the guard that excludes exactly that (no cached entry for the key
-    was filled by a call with the other Markup bit), a data format is always
-    escaped on output. *)
+(** HISTORICAL: under the guard that excludes exactly that (no cached entry for
+    the key was filled by a call with the other Markup bit), a data format was
+    always escaped on output. *)
 Theorem c04_date_data_format_escaped_partial : forall strftime c dat fmt,
   (forall r, cache_find (dat, snd fmt) c = Some r -> fst r = fst fmt) ->
   fst fmt = false ->
